@@ -1101,6 +1101,22 @@ package apd
 //@ lemma {C15} total_agrees_cmp(a: *Decimal, b: *Decimal): inv(a) && inv(b) && a.Form <= Infinite && b.Form <= Infinite && cmpsigned(a, b) != 0 ==> cmptotal(a, b) == cmpsigned(a, b)
 //@ lemma {C15} total_classes(a: *Decimal, b: *Decimal): inv(a) && inv(b) && ite(a.Negative, -(a.Form + 1), a.Form + 1) < ite(b.Negative, -(b.Form + 1), b.Form + 1) ==> cmptotal(a, b) == -1
 //@ lemma {C15} total_zero_iff_same(a: *Decimal, b: *Decimal): inv(a) && inv(b) && a.Form == Finite && b.Form == Finite && val(a.Coeff) > 0 && val(b.Coeff) > 0 && cmptotal(a, b) == 0 ==> a.Negative == b.Negative && a.Exponent == b.Exponent && val(a.Coeff) == val(b.Coeff)
+//@ lemma {C15} mag_scale(Cd: int, Ed: int, Cx: int, Ex: int, m: int): m <= Ed && m <= Ex ==> cmpmag(Cd, Ed, Cx, Ex) == sgn(Cd * pow10(Ed - m) - Cx * pow10(Ex - m))
+//@   using pow10_add(Ed - min(Ed, Ex), min(Ed, Ex) - m)
+//@   using pow10_add(Ex - min(Ed, Ex), min(Ed, Ex) - m)
+//@   using mul_lt(Cd * pow10(Ed - min(Ed, Ex)), Cx * pow10(Ex - min(Ed, Ex)), pow10(min(Ed, Ex) - m))
+//@   using mul_lt(Cx * pow10(Ex - min(Ed, Ex)), Cd * pow10(Ed - min(Ed, Ex)), pow10(min(Ed, Ex) - m))
+//@ lemma {C15} mag_trans(Ca: int, Ea: int, Cb: int, Eb: int, Cc: int, Ec: int): (cmpmag(Ca, Ea, Cb, Eb) <= 0 && cmpmag(Cb, Eb, Cc, Ec) <= 0 ==> cmpmag(Ca, Ea, Cc, Ec) <= 0) && (cmpmag(Ca, Ea, Cb, Eb) < 0 && cmpmag(Cb, Eb, Cc, Ec) <= 0 ==> cmpmag(Ca, Ea, Cc, Ec) < 0) && (cmpmag(Ca, Ea, Cb, Eb) <= 0 && cmpmag(Cb, Eb, Cc, Ec) < 0 ==> cmpmag(Ca, Ea, Cc, Ec) < 0)
+//@   using mag_scale(Ca, Ea, Cb, Eb, min(Ea, min(Eb, Ec)))
+//@   using mag_scale(Cb, Eb, Cc, Ec, min(Ea, min(Eb, Ec)))
+//@   using mag_scale(Ca, Ea, Cc, Ec, min(Ea, min(Eb, Ec)))
+//@ lemma {C15} cmp_trans(a: *Decimal, b: *Decimal, c: *Decimal): inv(a) && inv(b) && inv(c) && a.Form <= Infinite && b.Form <= Infinite && c.Form <= Infinite ==> (cmpsigned(a, b) <= 0 && cmpsigned(b, c) <= 0 ==> cmpsigned(a, c) <= 0) && (cmpsigned(a, b) < 0 && cmpsigned(b, c) <= 0 ==> cmpsigned(a, c) < 0) && (cmpsigned(a, b) <= 0 && cmpsigned(b, c) < 0 ==> cmpsigned(a, c) < 0)
+//@   using mag_trans(val(a.Coeff), a.Exponent, val(b.Coeff), b.Exponent, val(c.Coeff), c.Exponent)
+//@   using mag_trans(val(c.Coeff), c.Exponent, val(b.Coeff), b.Exponent, val(a.Coeff), a.Exponent)
+//@ lemma {C15} total_trans(a: *Decimal, b: *Decimal, c: *Decimal): inv(a) && inv(b) && inv(c) && cmptotal(a, b) <= 0 && cmptotal(b, c) <= 0 ==> cmptotal(a, c) <= 0
+//@   using cmp_trans(a, b, c)
+//@   using mag_trans(val(a.Coeff), a.Exponent, val(b.Coeff), b.Exponent, val(c.Coeff), c.Exponent)
+//@   using mag_trans(val(c.Coeff), c.Exponent, val(b.Coeff), b.Exponent, val(a.Coeff), a.Exponent)
 //@ lemma {C15} cmp_zeros_equal(a: *Decimal, b: *Decimal): inv(a) && inv(b) && iszero(a) && iszero(b) ==> cmpsigned(a, b) == 0
 //@ lemma {C15} cmp_inf_bounds(a: *Decimal, b: *Decimal): inv(a) && inv(b) && a.Form == Infinite && !a.Negative && b.Form == Finite ==> cmpsigned(a, b) == 1 && cmpsigned(b, a) == -1
 
